@@ -122,6 +122,8 @@ type UseSpec struct {
 
 type SpecSet struct {
 	Globals map[string]string // pkg.Name -> "nonnil"
+	PureIface map[string][]string // interface type -> method-name prefixes assumed read-only
+	Axioms  []Clause
 	Funcs  map[string]*FuncSpec
 	Types  map[string]*TypeSpec
 	Pures  map[string]*PureSpec
@@ -662,6 +664,21 @@ func (ss *SpecSet) ParseSpecFile(file, pkgPath string) error {
 				panic(fmt.Errorf("%s:%d: %v", file, lno, e))
 			}
 			curL.Uses = append(curL.Uses, UseSpec{Key: qual(name), Args: formals, Results: results})
+		case "axiom":
+			// axiom[label] expr: a closed assumption about uninterpreted spec functions (listed in the evidence)
+			lab, body := splitLabel(rest)
+			ss.Axioms = append(ss.Axioms, Clause{lab, mustExpr(file, lno, body), body})
+		case "pureiface":
+			// pureiface IFACE prefix...: methods of the interface whose name starts with one of the
+			// prefixes only read (assumed); calls through the interface havoc their result only
+			f := strings.Fields(rest)
+			if len(f) < 2 {
+				panic(fmt.Errorf("%s:%d: pureiface IFACE prefix...", file, lno))
+			}
+			if ss.PureIface == nil {
+				ss.PureIface = map[string][]string{}
+			}
+			ss.PureIface[pkgPath+"."+f[0]] = append(ss.PureIface[pkgPath+"."+f[0]], f[1:]...)
 		case "load":
 			// load <repo-relative dir>: also load that package with source (so its functions can be inlined); handled by the driver
 		case "global":
